@@ -116,7 +116,7 @@ Fixpoint find_rec (t : kd) (q : rgb) : option (N * rgb * Z) :=
 (* KDTree::find; on an empty arena `self.nodes.len() - 1` underflows *)
 Definition kd_find (t : kd) (q : rgb) : outcome (N * rgb) :=
   match find_rec t q with
-  | None => Panic 1636
+  | None => Panic 13001
   | Some (i, c, _) => Ok (i, c)
   end.
 
